@@ -3,7 +3,7 @@
 import os, random, sys
 sys.path.insert(0, os.path.dirname(os.path.abspath(__file__)))
 import vlib, scen, lcheck
-import c12
+import c12, c14
 
 PID = "C08"
 HEX = lambda b: bytes(b).hex()
@@ -69,6 +69,10 @@ def family(seed, tier):
         b = c12.live(seed + 41, k, tier)
         b.s["name"] = "c08-bands-%d" % k
         docs.append((b.s["name"], b.doc()))
+    # a payout height at which an asset held by stakers has no rate (OPR and SPR disagree beyond the band): still just a block
+    z = c14.chain(seed + 3, 3, "quick")
+    z.s["name"] = "c08-zero-rate-snapshot"
+    docs.append((z.s["name"], z.doc()))
     return docs
 
 
